@@ -145,7 +145,11 @@ LEAF={'lit','cls','from','tok','empty','wb','raw','bref'}
 def run(t, form='class'):
     """returns (real, shadow). raises whatever real raises; shadow expectations raise Expect/Unspec."""
     k=t[0]
-    if k in LEAF: return leaf_real(t), leaf_shadow(t)
+    if k in LEAF:
+        try: return leaf_real(t), leaf_shadow(t)
+        except RecursionError: raise Outcome('crash:RecursionError','leaf '+repr(t))
+        except LIBEXC as e: raise Outcome('unexpected-exception','leaf '+type(e).__name__)
+        except Exception as e: raise Outcome('crash:'+type(e).__name__,'leaf '+repr(t))
     subs=[run(a,form) for a in t[1] ] if k in('cat','alt','enc') else None
     P=lambda r: r if isinstance(r,Pregex) else Pregex(r)
     if k=='cat':
